@@ -179,7 +179,7 @@ def gen_desc(rng):
                     # a user-written stage inside the profiled pipeline
                     sts = [{'op': 'userstage', 'plain': rng.random() < 0.6}]
                 elif r < 0.3:
-                    st = {'op': rng.choice(['reshuffle', 'local_shuffle', 'shuffle']),
+                    st = {'op': rng.choice(['reshuffle', 'local_shuffle', 'shuffle', 'apply']),
                           'seed': rng.randrange(1 << 16)}
                     if st['op'] == 'local_shuffle':
                         st['bs'] = rng.randrange(1, 4)
@@ -225,7 +225,9 @@ def gen(rng, tier, index):
     nout = len(a.elems) if a.elems is not None else n
     cases = []
     base = {'desc': desc, 'faults': faults, 'seed': rng.randrange(1 << 30)}
-    cases.append(dict(base, mode='iter', k=None, epochs=rng.choice([1, 2])))
+    lazy_apply = any(s_['op'] == 'apply' for s_ in desc['stages'])
+    # (a lazily applied stateful function is evaluated anew in every epoch)
+    cases.append(dict(base, mode='iter', k=None, epochs=3 if lazy_apply else rng.choice([1, 2])))
     if not has_pf:
         for k in sorted({0, rng.randrange(0, nout + 1)}):
             cases.append(dict(base, mode='iter', k=k, epochs=1))
@@ -384,7 +386,7 @@ def run(case):
             same_after = None
             if case['mode'] == 'iter' and not case.get('hold') and not case.get('interleave') and \
                     desc['source'].get('kind') != 'user_nocopy' and any(
-                    s_['op'] in ('reshuffle', 'local_shuffle', 'shuffle') for s_ in desc['stages']):
+                    s_['op'] in ('reshuffle', 'local_shuffle', 'shuffle', 'apply') for s_ in desc['stages']):
                 full = dict(case, k=None, epochs=1)
                 obs_o, fo = observe(orig, full, ctxB, use_sim)
                 ctxD = W.set_ctx(W.Ctx(faults=case['faults']))
